@@ -226,12 +226,7 @@ def pool(t, depth, with_bind=True, fresh=[0]):
         n = 0
         for c in itertools.product(*subs):
             n += 1
-            named = None
-            if n % 3 == 1:
-                named = list(range(len(t[2])))
-            elif n % 3 == 2:
-                named = list(reversed(range(len(t[2]))))
-            out.append(("st", list(c), named))
+            out.append(("st", list(c), named_order(len(t[2]), n)))
     elif k == "enum":
         n = 0
         for vname, fields in t[2]:
@@ -241,14 +236,20 @@ def pool(t, depth, with_bind=True, fresh=[0]):
             subs = [small_pool(ft, depth - 1) for _f, ft in fields]
             for c in itertools.product(*subs):
                 n += 1
-                named = None
-                if all(f is not None for f, _t in fields):
-                    if n % 3 == 1:
-                        named = list(range(len(fields)))
-                    elif n % 3 == 2:
-                        named = list(reversed(range(len(fields))))
+                named = named_order(len(fields), n) if all(f is not None for f, _t in fields) else None
                 out.append(("v", vname, list(c), named))
     return out
+
+
+def named_order(nf, n):
+    """positional (None) for every third pattern, otherwise by name in one of the orders: as
+    declared, reversed, and - from three fields on - every other permutation (partially out of
+    order ones included)"""
+    if n % 3 == 0:
+        return None
+    perms = [list(p) for p in itertools.permutations(range(nf))]
+    order = [perms[0], perms[-1]] + perms[1:-1]
+    return order[(n // 3) % len(order)]
 
 
 def small_pool(t, depth):
@@ -310,6 +311,8 @@ def universe(tier):
     S1 = struct("Sa", [("x", BOOL), ("y", BOOL)])
     S2 = struct("Sb", [("u", BOOL), ("w", VOID)])
     S3 = struct("Sc", [("e", E1), ("f", BOOL)])
+    S4 = struct("Sd", [("a", BOOL), ("b", E1), ("c", BOOL)])
+    E5 = enum("Ef", [("Mm", [("p", BOOL), ("q", E1), ("r", BOOL)]), ("Nn", [])])
     OPT_B = enum("option", [("some", [(None, BOOL)]), ("none", [])], "option<bool>", "option")
     OPT_OPT = enum("option", [("some", [(None, OPT_B)]), ("none", [])], "option<option<bool>>", "option")
     RES = enum("result", [("ok", [(None, BOOL)]), ("err", [(None, E1)])], "result<bool, Ea>", "result")
@@ -325,11 +328,13 @@ def universe(tier):
     decls.append("type Sb = {\n  u: bool\n  w: void\n}")
     decls.append("type Sc = {\n  e: Ea\n  f: bool\n}")
     decls.append("type Bx = {\n  v: bool\n}")
+    decls.append("type Sd = {\n  a: bool\n  b: Ea\n  c: bool\n}")
+    decls.append("type Ef = | Mm(p: bool, q: Ea, r: bool) | Nn")
     decls.append("type Ge<T> = | Kk(T) | Ll")
     decls.append("type Gp<T> = | Two(T, T) | Zero")
     decls.append("type Gq<T, U> = | Mix(T, U) | Solo(U)")
     T += [BOOL, VOID, INT, STR, FLOAT, ("tuple", (BOOL, BOOL)), ("tuple", (BOOL, VOID)), ("tuple", (INT, BOOL)),
-          ("tuple", (BOOL, E1)), E1, E2, E3, E4, S1, S2, S3, OPT_B, RES, GEN, GEN2, GEN3, BOX_B, ("tuple", (STR, BOOL))]
+          ("tuple", (BOOL, E1)), E1, E2, E3, E4, E5, S1, S2, S3, S4, OPT_B, RES, GEN, GEN2, GEN3, BOX_B, ("tuple", (STR, BOOL))]
     if tier != "quick":
         T += [OPT_OPT, ("tuple", (BOOL, BOOL, BOOL)), ("tuple", (E1, E1)), ("tuple", (OPT_B, BOOL)), ("tuple", (FLOAT, BOOL))]
     else:
